@@ -61,6 +61,69 @@ def no_root_x(rng):
             return x
 
 
+def _poly_mulmod(a, b, f):
+    """(a*b) mod f over GF(P); polynomials as coefficient lists, lowest degree first; f monic cubic."""
+    r = [0] * (len(a) + len(b) - 1)
+    for i, x in enumerate(a):
+        if x:
+            for j, y in enumerate(b):
+                r[i + j] = (r[i + j] + x * y) % P
+    while len(r) > 3:
+        c = r.pop()
+        if c:
+            for k in range(3):
+                r[len(r) - 3 + k] = (r[len(r) - 3 + k] - c * f[k]) % P
+    return r + [0] * (3 - len(r))
+
+
+def small_y_point(rng):
+    """A curve point whose y is tiny (so that y + p still fits in 256 bits): root of x^3 + ax + b - y0^2 found by
+    gcd(X^p - X, cubic) in GF(p)[X] (equal-degree splitting is not needed when the gcd is linear)."""
+    for _ in range(200):
+        y0 = rng.randrange(1, 1 << 60)
+        f = [(R.B - y0 * y0) % P, R.A % P, 0]            # monic cubic x^3 + 0x^2 + ax + (b - y0^2): low coefficients
+        # X^p mod f
+        res, base, e = [1, 0, 0], [0, 1, 0], P
+        while e:
+            if e & 1:
+                res = _poly_mulmod(res, base, f)
+            base = _poly_mulmod(base, base, f)
+            e >>= 1
+        g = [(res[0]) % P, (res[1] - 1) % P, res[2] % P]  # X^p - X mod f
+        # gcd(f, g) by Euclid
+        a = f + [1]
+        b = g
+        def trim(v):
+            while v and v[-1] == 0:
+                v = v[:-1]
+            return v
+        a, b = trim(a), trim(b)
+        while b:
+            inv = pow(b[-1], -1, P)
+            while len(a) >= len(b):
+                c = a[-1] * inv % P
+                sh = len(a) - len(b)
+                a = trim([(a[i] - (c * b[i - sh] if i >= sh else 0)) % P for i in range(len(a))])
+                if not a:
+                    break
+            a, b = b, a
+        g = a
+        if len(g) == 2:                                    # linear factor: x = -g0/g1
+            x = (-g[0]) * pow(g[1], -1, P) % P
+            if R.on_curve((x, y0)):
+                return (x, y0)
+    return None
+
+
+def small_x_point(rng):
+    for _ in range(200):
+        x0 = rng.randrange(1, 1 << 200)
+        pt = R.lift_x(x0, rng.randrange(2))
+        if pt:
+            return pt
+    return None
+
+
 def xy_values(rng):
     """(name, x, y, valid) with x, y in [0, 2^256)."""
     g = rand_point(rng)
@@ -71,6 +134,14 @@ def xy_values(rng):
             ('zero-zero', 0, 0), ('y+1', x, (y + 1) % P), ('y-1', x, (y - 1) % P), ('x+1', (x + 1) % P, y), ('swapped', y, x),
             ('all-ff', (1 << 256) - 1, (1 << 256) - 1), ('x=0', 0, y), ('y=0', x, 0), ('no-root-x', no_root_x(rng), y),
             ('random', rng.randrange(1 << 256), rng.randrange(1 << 256))]
+    # coordinates that are a valid point once reduced mod p (an implementation that reduces instead of refusing accepts them)
+    sx = small_x_point(rng)
+    if sx:
+        vals.append(('x=x0+p-reducible', sx[0] + P, sx[1]))
+    sy = small_y_point(rng)
+    if sy:
+        vals.append(('y=y0+p-reducible', sy[0], sy[1] + P))
+        vals.append(('valid-small-y', sy[0], sy[1]))
     for _ in range(40):
         xx = rng.randrange(P)
         yy = R.sqrt_p(xx * xx * xx + R.A * xx + R.B + 1)
